@@ -585,8 +585,8 @@ def run(ctx):
                      "fixed in /repo 70f90aa); regression: corpus/C03/05_incrF_wrap.txt, Syncvar/Examples.v incrF_wrap_regression")
     _hashmap.run_tier(ctx, quick)      # qt_hash (src/hashmap.c): theorems + M1 tie, see _hashmap.py
     # ---- micro-step tier (extension B) ----
-    ctx.coq_properties("Properties/Properties_C03_micro.v")
-    _c03_micro.run_micro(ctx, quick)       # Syncvar/MicroAll.v replayed on the real syncvar.c with a targeted baton, see _c03_micro.py
+    _c03_micro.run_micro(ctx, quick)       # ctx.coq_properties("Properties/Properties_C03_micro.v") + Syncvar/MicroAll.v replayed on the real
+                                           # syncvar.c with a targeted baton, see _c03_micro.py
     # ---- end of micro-step tier (extension B) ----
     broken = bool(mismatches) or not pr["ok"]
     if not broken and not oracle_fail:
